@@ -58,12 +58,16 @@ void ares_close_connection(ares_conn_t *conn, ares_status_t requeue_status)
   ares_buf_destroy(conn->in_buf);
   ares_buf_destroy(conn->out_buf);
 
+  /* Tell the application to stop watching the socket while conn->server is
+   * still known to be valid: requeuing below may run completion callbacks,
+   * and a callback is allowed to change the server list, which can destroy
+   * the server this (already unlinked) connection belonged to. */
+  ares_conn_sock_state_cb_update(conn, ARES_CONN_STATE_NONE);
+
   /* Requeue queries to other connections */
   ares_requeue_queries(conn, requeue_status);
 
   ares_llist_destroy(conn->queries_to_conn);
-
-  ares_conn_sock_state_cb_update(conn, ARES_CONN_STATE_NONE);
 
   ares_socket_close(channel, conn->fd);
 
